@@ -1,20 +1,21 @@
 """C01 - presence is exactly the union of the spans that were added (removal-enabled graphs)."""
 import gen
-from props.base import PropBase, SpanTracker, norm_key, expand_bulk, tup
+from props.base import PropBase, bigio_case, with_bigio, SpanTracker, norm_key, expand_bulk, tup
 
 
 def random_bulk(rnd, nodes):
-    kind = rnd.choice(['from', 'path', 'star', 'cycle'])
+    kind = rnd.choice(['from', 'path', 'star', 'cycle', 'fpath', 'fstar', 'fcycle'])
     t = rnd.choice([None] + list(range(0, 8)) * 3)
     if kind == 'from':
         l = [tuple(rnd.choice(nodes) for _ in range(2)) for _ in range(rnd.randint(1, 4))]
         e = rnd.choice([None, None, (t or 0) + rnd.randint(1, 3)])
     else:
         l = [rnd.choice(nodes) for _ in range(rnd.randint(1, 5))]
-        e = None
+        e = rnd.choice([None, (t or 0) + rnd.randint(1, 4)]) if kind[0] == 'f' else None
     return ('bulk', 0, kind, t, e, l)
 
 
+@with_bigio
 class C01(PropBase):
     id = 'C01'
     obs = {'add', 'bulk', 'has'}
@@ -32,6 +33,8 @@ class C01(PropBase):
                 'E2: pairs (1,2),(2,1),(1,3),(1,1), all histories of <= 2 calls, t in 0..3, e in {None,t+1,t+2}, both classes']
 
     def exhaustive_cases(self, tier):
+        # runs of 150 000 instants at epoch-size instants (implementation side only, interval arithmetic at the boundaries)
+        yield bigio_case(('span-core', False, 150000, 1700000000000), ('span-core', True, 150000, 2 ** 31 - 9))
         for directed in (False, True):
             if tier == 'quick':
                 for h in gen.exhaustive_E1(max_len=2):
